@@ -229,6 +229,7 @@ def run(R, ctx):
     )
     R.assumptions += ["coverage per (ADT, slot), not path-sensitive", "std String methods are recognised by name"]
     walkers.walker_cover(R, ctx, "C04.shift-cover", "shift_token_line")
+    walkers.double_application(R, ctx, "C04.once", "shift_token_line")
     keep(R, ctx)
     bundle_insert(R, ctx)
     count(R, ctx)
